@@ -208,7 +208,7 @@ const EP_ALPHABET: &[&str] = &[
 
 pub fn run(tier: Tier, seed: u64) -> i32 {
     let mut run = Run::new("C15", tier, seed, "exploration");
-    run.rule = "evaluation = one string passed to the real from_fen under catch_unwind (or one CLI invocation of the real binary). Families: canonical FENs of legal positions with halfmove 0..150 and fullmove 1..70000 (faithfulness: Ok and every field equal to the oracle's strict parse); field-wise mutations; strings over the FEN alphabet; arbitrary Unicode; truncations and 10^5-character inputs; the ep field exhaustively over all 1-3 symbol strings of a 40-symbol alphabet (ASCII + multi-byte); every character position of two valid FENs replaced by / preceded by each of 32 confusable Unicode characters (digits of other scripts, full-width and Cyrillic letters, exotic blanks and dashes); CLI: `walleye --fen=<s> -T -d 1` must exit 0 without 'panicked' and print a line. Non-trivial = every string (distinct by content); features name the family".into();
+    run.rule = "evaluation = one string passed to the real from_fen under catch_unwind (or one CLI invocation of the real binary). Families: canonical FENs of legal positions with halfmove 0..150 and fullmove 1..70000 (faithfulness: Ok and every field equal to the oracle's strict parse); field-wise mutations; strings over the FEN alphabet; arbitrary Unicode; truncations and 10^5-character inputs; the ep field exhaustively over all 1-3 symbol strings of a 40-symbol alphabet (ASCII + multi-byte); every character position of two valid FENs replaced by / preceded by each of 32 confusable Unicode characters (digits of other scripts, full-width and Cyrillic letters, exotic blanks and dashes); CLI: `walleye --fen=<s> -T -d 1` must exit 0 without 'panicked' and print a line, also when <s> is a byte string that is not UTF-8 (random bytes, valid FENs with bytes >= 0x80 or truncated/overlong sequences spliced in). Non-trivial = every string (distinct by content); features name the family".into();
     run.assumptions = vec![
         "well-formed FEN = exactly six single-space separated fields, standard letters, each right at most once, counters plain decimal (halfmove >= 0, fullmove >= 1, at most 9 digits) and the position satisfies C01's legality predicate".into(),
         "strings containing NUL or empty strings are not passed through argv".into(),
@@ -393,6 +393,76 @@ pub fn run(tier: Tier, seed: u64) -> i32 {
             }
         }
         Err(e) => run.acc.inconclusive.push(format!("plain binary build failed: {}", e)),
+    }
+    // CLI, arguments that are not text: the quantifier says "arbitrary bytes", and an argv
+    // element is a byte string (no NUL), not necessarily UTF-8
+    if let Ok(bin) = bb::build_plain() {
+        use std::os::unix::ffi::OsStringExt;
+        let n_raw = tier.pick(64usize, 640);
+        let res = par::par_map(n_raw, |i| {
+            let mut acc = Acc::new();
+            let mut rng = Rng::stream(seed, 0xC15_0000 + i as u64);
+            let mut bytes: Vec<u8> = match i % 4 {
+                0 => (0..rng.range(1, 40)).map(|_| 1 + rng.below(255) as u8).collect(),
+                1 => {
+                    // a valid FEN with one to three bytes replaced by bytes >= 0x80
+                    let mut b = format!("{} 0 1", START_FEN).into_bytes();
+                    for _ in 0..rng.range(1, 4) {
+                        let k = rng.below(b.len() as u64) as usize;
+                        b[k] = 0x80 + rng.below(128) as u8;
+                    }
+                    b
+                }
+                2 => {
+                    // truncated multi-byte sequences and overlong encodings inside a valid frame
+                    let frag: &[u8] = [&b"\xc3"[..], &b"\xe2\x82"[..], &b"\xf0\x9f\x98"[..], &b"\xc0\xaf"[..], &b"\xed\xa0\x80"[..], &b"\xff"[..], &b"\xfe\xff"[..]][rng.below(7) as usize];
+                    let mut b = format!("{} 0 1", START_FEN).into_bytes();
+                    let k = rng.below(b.len() as u64 + 1) as usize;
+                    for (o, x) in frag.iter().enumerate() {
+                        b.insert(k + o, *x);
+                    }
+                    b
+                }
+                _ => {
+                    let mut b: Vec<u8> = Vec::new();
+                    for _ in 0..rng.range(1, 70) {
+                        b.push(if rng.chance(1, 5) { 0x80 + rng.below(128) as u8 } else { FEN_ALPHABET[rng.below(FEN_ALPHABET.len() as u64) as usize] });
+                    }
+                    b
+                }
+            };
+            bytes.retain(|b| *b != 0);
+            if std::str::from_utf8(&bytes).is_ok() {
+                bytes.push(0xff);
+            }
+            let hex: String = bytes.iter().map(|b| format!("{:02x}", b)).collect();
+            let mut arg = b"--fen=".to_vec();
+            arg.extend(&bytes);
+            let args: Vec<std::ffi::OsString> = vec![std::ffi::OsString::from_vec(arg), "-T".into(), "-d".into(), "1".into()];
+            acc.evaluations += 1;
+            let case = json!({"kind": "cli_fen_bytes", "property": "C15", "hex": hex});
+            match bb::run_cli(&bin, &args, 20_000) {
+                Err(e) => acc.inconclusive.push(format!("cli run failed to start: {}", e)),
+                Ok(o) => {
+                    if acc.distinct.insert(hash64(&format!("clibytes{}", hex))) {
+                        acc.feature("cli_argument_not_utf8");
+                    }
+                    if o.timed_out {
+                        acc.inconclusive.push(format!("cli run timed out on bytes {}", hex));
+                    } else if o.status != Some(0) || o.stderr.contains("panicked") || o.stdout.trim().is_empty() {
+                        acc.violation(
+                            format!("C15|cli-bytes|{}", super::rules_driver::truncate(&hex, 120)),
+                            format!("walleye --fen=<bytes {}> -T -d 1: exit status {:?}, stdout {:?}, stderr {:?} (expected an error message and exit 0)", super::rules_driver::truncate(&hex, 160), o.status, super::rules_driver::truncate(o.stdout.trim(), 120), super::rules_driver::truncate(o.stderr.trim(), 200)),
+                            case,
+                        );
+                    }
+                }
+            }
+            acc
+        });
+        for a in res {
+            run.acc.merge(a, &[]);
+        }
     }
     run.floor_distinct = 1000;
     run.finish()
